@@ -2091,7 +2091,7 @@ impl Property for C18 {
     const ID: &'static str = "C18";
     type Case = Case;
     fn rule() -> String {
-        "cases = (validation crate, entry point, options for the *_with_options_* entry points, layout, 1 document or a stream of 1-4 documents); a document is a description of a value of the fixed type family Root{camelCase: shortName, maxCount, type (raw identifier), abC, aBc, netCfg: Net{kebab-case: host-name, port-no, back-ups: [Item]}, items: [Item], byName: BTreeMap<String, Item>}, Item{label, weight, tags: [String]} giving for every leaf its value (satisfying or violating its length/range constraint) and how it is supplied (directly, directly with an anchor, alias to a scalar anchored in a pool, through `<<: *base`, overriding a merged value, through a merge whose base entry is an alias), whether an Item is used through an alias to a whole anchored mapping, block/flow style per container, comments with multi-byte text, CRLF, indentation, document markers. The harness renders the YAML and records the line/column of every value token. Oracle: see report-C18.md (result == plain entry point when nothing is violated; otherwise the reported path set == violated constraints evaluated on the plain value, use site and definition site of every issue == ground truth, observed through a recording Localizer in plain and snippet rendering and through Error::location()/locations(); every failing document of a stream is reported). Non-trivial: >= 1 violated constraint reached through an alias, a merge, a renamed field (or below one) or a sequence index. distinct = distinct case descriptions. Sub-check long-stream: 260 MiB of small valid documents through read and through the validating iterator of each crate give the same items (no input-size cap in either).".into()
+        "cases = (validation crate, entry point, options for the *_with_options_* entry points, layout, 1 document or a stream of 1-4 documents); a document is a description of a value of the fixed type family Root{camelCase: shortName, maxCount, type (raw identifier), abC, aBc, netCfg: Net{kebab-case: host-name, port-no, back-ups: [Item]}, items: [Item], byName: BTreeMap<String, Item>}, Item{label, weight, tags: [String]} giving for every leaf its value (satisfying or violating its length/range constraint) and how it is supplied (directly, directly with an anchor, alias to a scalar anchored in a pool, through `<<: *base`, overriding a merged value, through a merge whose base entry is an alias, through a merged mapping written in place), whether an Item is used through an alias to a whole anchored mapping, block/flow style per container, comments with multi-byte text, CRLF, indentation, document markers. The harness renders the YAML and records the line/column of every value token. Oracle: see report-C18.md (result == plain entry point when nothing is violated; otherwise the reported path set == violated constraints evaluated on the plain value, use site and definition site of every issue == ground truth, observed through a recording Localizer in plain and snippet rendering and through Error::location()/locations(); every failing document of a stream is reported). Non-trivial: >= 1 violated constraint reached through an alias, a merge, a renamed field (or below one) or a sequence index. distinct = distinct case descriptions. Sub-check defaulted-field: a violated field filled by its serde default (nesting depth 1-3) is named by the plain and by the miette rendering. Sub-check long-stream: 260 MiB of small valid documents through read and through the validating iterator of each crate give the same items (no input-size cap in either).".into()
     }
     fn assumptions() -> Vec<String> {
         vec![
